@@ -1753,3 +1753,32 @@ def check_covers_family(ctx, f):
     ctx.ob("R-GRD", "Prefix::covers:same-family", not bad,
            "Prefix::covers returns false whenever the two prefixes are of different address families (no path that is feasible "
            "then returns anything else)", where=b.loc, detail={"paths": len(ps), "counterexamples": bad[:3]})
+    # a more specific prefix never covers a less specific one: on every path that is feasible when len(self) > len(other)
+    # — whatever the other tests say — the result is the constant false
+    LEN = re.compile(r"^(?:Prefix|FamilyAndLen)::len\((self|%2)(?:\.family_and_len)?\)$")
+    lens = {"self": 2, "%2": 1}
+    bad2 = []
+    for conds, ret in ps:
+        feasible = True
+        for a, truth in conds:
+            neg = False
+            while a[0] == "not":
+                a, neg = a[1], not neg
+            v = None
+            if a[0] == "cmp":
+                mx, my = LEN.match(K.alpha(render(a[2]), b) or ""), LEN.match(K.alpha(render(a[3]), b) or "")
+                if mx and my:
+                    x, y = lens[mx.group(1)], lens[my.group(1)]
+                    v = {"<": x < y, "<=": x <= y, ">": x > y, ">=": x >= y, "==": x == y, "!=": x != y}[a[1]]
+            if v is None:
+                continue
+            if neg:
+                v = not v
+            if v != truth:
+                feasible = False
+                break
+        if feasible and not (ret is not None and OL.atom(ret) == ("const", False)):
+            bad2.append({"returns": render(ret)[:120] if ret is not None else None})
+    ctx.ob("R-GRD", "Prefix::covers:not-more-specific", not bad2,
+           "Prefix::covers returns false whenever self is longer (more specific) than other — no path that is feasible then "
+           "returns anything else", where=b.loc, detail={"paths": len(ps), "counterexamples": bad2[:3]})
